@@ -87,6 +87,16 @@ def gen_case(rng, cid, mode):
                 seen.add(key)
                 uniq.append(h)
         hs = [h for h in hs if h["ovr"]["k"] != "const"] + uniq
+    if mode == "api" and rng.random() < 0.25:
+        # one overlay entered, another override of the same variable entered inside it, then a fork of the first one entered
+        # again innermost: three constant overrides in activation order, the first and the third being the same rule
+        import copy
+        v = var if var != "#value" else "a"
+        sA = focused_on(rng, fns, v)
+        sB = focused_on(rng, fns, v)
+        hA = W.norm_handler({"kind": "imm", "sel": sA, "ovr": {"k": "const", "c": rng.randint(500, 599)}, "silent": True})
+        hB = W.norm_handler({"kind": "imm", "sel": sB, "ovr": {"k": "const", "c": rng.randint(600, 699)}, "silent": True})
+        return {"id": cid, "script": sc, "arg": rng.randint(0, 40), "handlers": [hA, hB, copy.deepcopy(hA)], "reenter": True}
     case = {"id": cid, "script": sc, "arg": rng.randint(0, 40), "handlers": hs}
     if mode == "api" and rng.random() < 0.5:
         case["forkpre"] = True
